@@ -180,10 +180,8 @@ Proof.
 Qed.
 Lemma wf_or_step : forall m st v r, wf_val st v -> or_step m v = Ok (Some r) -> wf_val st r.
 Proof.
-  intros m st v r H E. destruct m; simpl in E.
-  - destruct (is_nil v); inversion E; subst; exact H.
-  - destruct (is_nil (primary v)); inversion E; subst; apply wf_primary; exact H.
-  - destruct (is_values v); [discriminate|]. destruct (is_nil v); inversion E; subst; exact H.
+  intros m st v r H E. unfold or_step in E.
+  destruct (is_nil (primary v)); inversion E; subst; apply wf_primary; exact H.
 Qed.
 Lemma wf_values_list : forall st v, wf_val st v -> wf_vals st (values_list v).
 Proof.
